@@ -122,6 +122,18 @@ def build_case(r, tier):
         # R8: the barred reader trims padded cells with strings.TrimSpace, so values beginning or ending in (any Unicode)
         # white space are outside the domain of that variant
         recs = [[(k, (v.strip() or "v") if v != "" else "") for k, v in rec] for rec in recs]
+    if (fmt == "pprint" or (fmt == "csvlite" and "--ofs" in wopts)) and len(recs) > 1 and r.chance(0.25):
+        # two schemas of the same width whose names differ only in where the commas are: another schema all the same
+        # (only where a comma in a name is representable: not with csvlite's default separator)
+        nf = max(2, min(len(recs[0]), 4))
+        k1 = ["a,b", "c"] + ["f%d" % i for i in range(nf - 2)]
+        k2 = ["a", "b,c"] + ["f%d" % i for i in range(nf - 2)]
+        cut = r.randint(1, len(recs) - 1)
+        vals = [[(v.strip() or "v") if v.strip() != v or v == "" else v for _, v in rec][:nf] for rec in recs]
+        vals = [vs + ["w"] * (nf - len(vs)) for vs in vals]
+        recs = [list(zip(k1 if i < cut else k2, vs)) for i, vs in enumerate(vals)]
+        if r.chance(0.3) and len(recs) > 2:
+            recs.append(list(zip(k1, vals[0])))
     crlf_embedded = False
     if fmt == "csv" and "crlf" in wopts:
         # Go-csv semantics kept by Miller: with CRLF line ends an embedded LF is written as CRLF too, and read back as LF.
